@@ -92,65 +92,10 @@ Proof.
       destruct (ge_cmp x y =? 0) eqn:E; [apply IH | rewrite E; reflexivity].
 Qed.
 
-(* ------------------------------------------------------------------ the final length test *)
 Lemma gcat_num_iff e : (gcat e =? cat_numeric) = gem_is_num e.
 Proof.
   unfold gcat, gem_is_num. destruct (version_category (ge_str e) =? cat_eof) eqn:E; auto.
   apply Z.eqb_eq in E. rewrite E. reflexivity.
-Qed.
-
-Lemma pad_equiv_zero y : ge_cmp gem_pad y = 0 \/ ge_cmp y gem_pad = 0 -> gem_is_num y = true /\ ge_int y = 0.
-Proof.
-  intros H.
-  assert (H' : ge_cmp gem_pad y = 0).
-  { destruct H; auto. pose proof (cc_antisym _ _ ge_cmp_core y gem_pad I I) as A. rewrite H in A.
-    simpl in A. destruct (ge_cmp gem_pad y); simpl in A; try discriminate; auto. }
-  unfold ge_cmp in H'. apply lex_eq0 in H'. destruct H' as [H1 H2]. apply lex_eq0 in H2. destruct H2 as [H2 _].
-  apply (proj1 (cmpZ_eq _ _)) in H1. apply (proj1 (cmpZ_eq _ _)) in H2.
-  change (gcat gem_pad) with cat_numeric in H1. change (gnum gem_pad) with 0 in H2.
-  unfold gnum in H2. rewrite <- H1 in H2. simpl in H2.
-  rewrite <- gcat_num_iff, <- H1. split; auto.
-Qed.
-
-Lemma gem_last_ok_tail_zero l :
-  l <> [] -> Forall (fun y => gem_is_num y = true /\ ge_int y = 0) l -> gem_last_ok l = false.
-Proof.
-  induction l as [|e t IH]; intros Hn H; [congruence|].
-  inversion H as [|? ? [H1 H2] Ht]; subst.
-  destruct t as [|e' t'].
-  - simpl. rewrite H1, H2. reflexivity.
-  - change (gem_last_ok (e :: e' :: t')) with (gem_last_ok (e' :: t')). apply IH; auto. discriminate.
-Qed.
-
-Lemma gem_last_ok_skipn n : forall l, (n < length l)%nat -> gem_last_ok (skipn n l) = gem_last_ok l.
-Proof.
-  induction n as [|n IH]; intros l H; auto.
-  destruct l as [|e t]; [simpl in H; lia|].
-  destruct t as [|e' t']; [simpl in H; lia|].
-  change (gem_last_ok (e :: e' :: t')) with (gem_last_ok (e' :: t')).
-  change (skipn (S n) (e :: e' :: t')) with (skipn n (e' :: t')). apply IH. simpl in *. lia.
-Qed.
-
-Lemma skipn_nonnil {A} n (l : list A) : (n < length l)%nat -> skipn n l <> [].
-Proof.
-  intros H E. pose proof (skipn_length n l) as L. rewrite E in L. simpl in L. lia.
-Qed.
-
-(* in the domain, a zero result of the loop leaves lists of equal length *)
-Lemma pad_lex_zero_len xs ys :
-  gem_last_ok xs = true -> gem_last_ok ys = true ->
-  pad_lex ge_cmp gem_pad xs ys = 0 -> length xs = length ys.
-Proof.
-  intros Hx Hy H. apply pad_lex_zero_tail in H. destruct H as [H1 H2].
-  destruct (Nat.lt_trichotomy (length xs) (length ys)) as [L|[L|L]]; auto; exfalso.
-  - assert (F : gem_last_ok (skipn (length xs) ys) = false).
-    { apply gem_last_ok_tail_zero; [apply skipn_nonnil; auto|].
-      eapply Forall_impl; [|exact H2]. intros a Ha. apply pad_equiv_zero; auto. }
-    rewrite gem_last_ok_skipn in F by auto. congruence.
-  - assert (F : gem_last_ok (skipn (length ys) xs) = false).
-    { apply gem_last_ok_tail_zero; [apply skipn_nonnil; auto|].
-      eapply Forall_impl; [|exact H1]. intros a Ha. apply pad_equiv_zero; auto. }
-    rewrite gem_last_ok_skipn in F by auto. congruence.
 Qed.
 
 (* ------------------------------------------------------------------ the key of a version *)
@@ -174,40 +119,31 @@ Proof.
 Qed.
 
 Lemma gem_compare_key na nb xs ys :
-  gem_last_ok xs = true -> gem_last_ok ys = true ->
   gem_compare na nb xs ys = gem_key_cmp (na, xs) (nb, ys).
 Proof.
-  intros Hx Hy. unfold gem_compare, gem_key_cmp, lex. simpl fst; simpl snd.
+  unfold gem_compare, gem_key_cmp, lex. simpl fst; simpl snd.
   destruct (compare_nums na nb =? 0); simpl negb; cbv iota; auto.
   destruct xs as [|x xs], ys as [|y ys]; try reflexivity.
   rewrite gem_loop_pad. cbv zeta. simpl pre_opt. simpl opt_cmp.
   destruct (pad_lex ge_cmp gem_pad (x :: xs) (y :: ys) =? 0) eqn:E; auto.
-  apply Z.eqb_eq in E. rewrite (pad_lex_zero_len _ _ Hx Hy E), Nat.ltb_irrefl. auto.
+  apply Z.eqb_eq in E. auto.
 Qed.
 
 (* ------------------------------------------------------------------ on versions *)
 Definition gem_cmp_v (a b : version) : Z := gem_compare (v_num a) (v_num b) (gem_elems a) (gem_elems b).
 
-(* a RubyGems version whose prerelease does not end in a numeral of value 0 *)
-Definition gem_dom (v : version) : Prop := v_sys v = SRubyGems /\ gem_c01_dom v = true.
-
-Lemma gem_dom_ext v : gem_dom v -> v_ext v = GemExt (gem_elems v) /\ gem_last_ok (gem_elems v) = true.
-Proof.
-  intros [_ H]. unfold gem_c01_dom, gem_elems in *. destruct (v_ext v); try discriminate. auto.
-Qed.
+(* a RubyGems version: any numbers, any elements *)
+Definition gem_dom (v : version) : Prop := v_sys v = SRubyGems /\ v_ext v = GemExt (gem_elems v).
 
 Lemma gem_compare_ok a b : gem_dom a -> gem_dom b -> compare a b = Ok (gem_cmp_v a b).
 Proof.
-  intros Ha Hb. destruct (gem_dom_ext a Ha) as [Ea _], (gem_dom_ext b Hb) as [Eb _].
-  destruct Ha as [Sa _], Hb as [Sb _]. unfold compare. rewrite Sa, Sb. simpl.
-  rewrite Ea, Eb. reflexivity.
+  intros [Sa Ea] [Sb Eb]. unfold compare. rewrite Sa, Sb. simpl. rewrite Ea, Eb. reflexivity.
 Qed.
 
 Lemma gem_core : cmp_core gem_dom gem_cmp_v.
 Proof.
   eapply core_ext with (c := fun a b => gem_key_cmp (v_num a, gem_elems a) (v_num b, gem_elems b)).
-  - intros a b Ha Hb. unfold gem_cmp_v. symmetry.
-    apply gem_compare_key; [apply (gem_dom_ext a Ha) | apply (gem_dom_ext b Hb)].
+  - intros a b Ha Hb. unfold gem_cmp_v. symmetry. apply gem_compare_key.
   - apply (core_pullback (fun v => (v_num v, gem_elems v)) gem_dom (fun _ => True) gem_key_cmp); auto.
     apply gem_key_core.
 Qed.
@@ -216,55 +152,23 @@ Theorem gem_laws : exists c : version -> version -> Z,
   (forall a b, gem_dom a -> gem_dom b -> compare a b = Ok (c a b)) /\ cmp_laws gem_dom c.
 Proof. exists gem_cmp_v. split; [exact gem_compare_ok | apply core_laws, gem_core]. Qed.
 
-(* every accepted string yields a RubyGems version carrying a gem extension: the only
-   hypothesis of gem_laws that is not automatic is the condition on the last element *)
-Lemma gem_parse_shape s v : gem_parse s = Ok v -> v_sys v = SRubyGems /\ exists l, v_ext v = GemExt l.
+(* every accepted string yields such a version *)
+Lemma gem_parse_dom s v : gem_parse s = Ok v -> gem_dom v.
 Proof.
   unfold gem_parse, gem_parse_with. destruct (gem_possible s); simpl; [|discriminate].
   destruct (gem_version_head s); simpl; try discriminate.
   destruct (gem_init_with gem_fix_zero_trim s); simpl; try discriminate.
-  intros H. inversion H; subst; simpl. split; eauto.
+  intros H. inversion H; subst; simpl. split; reflexivity.
 Qed.
 
-Lemma gem_parse_dom s v : gem_parse s = Ok v -> gem_c01_dom v = true -> gem_dom v.
-Proof. intros H D. split; auto. apply (gem_parse_shape s v H). Qed.
-
-(* The restriction is needed: 1.a against 1.a.00 (F-C01-3). *)
 Definition s_1a : bytes := [49; 46; 97]%N.
 Definition s_1a00 : bytes := [49; 46; 97; 46; 48; 48]%N.
-
-Lemma gem_antisym_witness_c :
-  match gem_parse s_1a, gem_parse s_1a00 with
-  | Ok va, Ok vb => compare va vb = Ok (-1) /\ compare vb va = Ok 0
-  | _, _ => False
-  end.
-Proof. vm_compute. split; reflexivity. Qed.
-
-Lemma gem_antisym_witness : exists va vb,
-  gem_parse s_1a = Ok va /\ gem_parse s_1a00 = Ok vb /\
-  compare va vb = Ok (-1) /\ compare vb va = Ok 0.
-Proof.
-  pose proof gem_antisym_witness_c as H.
-  destruct (gem_parse s_1a) as [va| | |]; try contradiction.
-  destruct (gem_parse s_1a00) as [vb| | |]; try contradiction.
-  exists va, vb. tauto.
-Qed.
-
 Definition s_1a01 : bytes := [49; 46; 97; 46; 48; 49]%N.
-Lemma gem_domain_nonvacuous_c :
-  match gem_parse s_1a, gem_parse s_1a01 with
-  | Ok va, Ok vb => gem_c01_dom va = true /\ gem_c01_dom vb = true /\ compare va vb = Ok (-1)
-  | _, _ => False
+
+(* non-vacuity, and the pair of the repaired finding F-C01-3: 1.a = 1.a.00 < 1.a.01 *)
+Lemma gem_examples :
+  match gem_parse s_1a, gem_parse s_1a00, gem_parse s_1a01 with
+  | Ok a, Ok b, Ok c => compare a b = Ok 0 /\ compare b a = Ok 0 /\ compare a c = Ok (-1) /\ compare b c = Ok (-1)
+  | _, _, _ => False
   end.
 Proof. vm_compute. repeat split; reflexivity. Qed.
-
-Lemma gem_domain_nonvacuous : exists va vb,
-  gem_parse s_1a = Ok va /\ gem_parse s_1a01 = Ok vb /\ gem_dom va /\ gem_dom vb /\
-  compare va vb = Ok (-1).
-Proof.
-  pose proof gem_domain_nonvacuous_c as H.
-  destruct (gem_parse s_1a) as [va| | |] eqn:E1; try contradiction.
-  destruct (gem_parse s_1a01) as [vb| | |] eqn:E2; try contradiction.
-  exists va, vb. destruct H as [H1 [H2 H3]].
-  repeat split; auto; try (eapply gem_parse_shape; eauto).
-Qed.
